@@ -133,23 +133,29 @@ Proof. exact parity_error_in_text. Qed.
 Print Assumptions C06_row_parity_error.
 
 (* ---- stream level ---- *)
+(* Character set designations (X/28 format 1 and M/29 packets of the selected magazine, designation code 0 or 4) are
+   inside the class with their exact semantics: the reader parses the pages after the whole stream, so the designation in
+   force then -- the last X/28 one received while our page was being received, else the last M/29 one (desig_final) --
+   decides the table of EVERY page, earlier ones included (cues_of's last argument; 0 = default designation). *)
 (* the reader is given the page *)
 Theorem C06_stream_page_given : forall (s : sched) (m : mux) (peses : list pes),
   mux_ok s m = true -> forallb pes_ok peses = true -> flat_map pes_units peses = events s m ->
   ttx_feed (Z.of_N (s_mag s) * 100 + s_pn s) (map enc_pes peses)
-  = Ok (cues_of s (zero_or (tmin peses None)) (zero_or (tmax peses None))).
+  = Ok (cues_of s (zero_or (tmin peses None)) (zero_or (tmax peses None)) (desig_final false (s_mag s) m)).
 Proof. exact stream_given_page. Qed.
 Print Assumptions C06_stream_page_given.
 (* the reader finds the first subtitle-flagged page *)
 Theorem C06_stream_page_auto : forall (s : sched) (m : mux) (peses : list pes),
   mux_ok_auto s m = true -> forallb pes_ok peses = true -> flat_map pes_units peses = events s m ->
-  ttx_feed 0 (map enc_pes peses) = Ok (cues_of s (zero_or (tmin peses None)) (zero_or (tmax peses None))).
+  ttx_feed 0 (map enc_pes peses)
+  = Ok (cues_of s (zero_or (tmin peses None)) (zero_or (tmax peses None)) (desig_final true (s_mag s) m)).
 Proof. exact stream_auto_page. Qed.
 Print Assumptions C06_stream_page_auto.
 (* a non-trivial schedule and multiplexing satisfy the hypotheses *)
 Example C06_stream_example : mux_ok ex_sched ex_mux = true /\ forallb pes_ok ex_peses = true
-  /\ flat_map pes_units ex_peses = events ex_sched ex_mux /\ length (cues_of ex_sched 900 5000) = 2%nat.
-Proof. split; [exact ex_mux_ok|]. split; [exact (proj1 ex_pes_ok)|]. split; [exact (proj2 ex_pes_ok) | exact (proj1 ex_cues_nonempty)]. Qed.
+  /\ flat_map pes_units ex_peses = events ex_sched ex_mux /\ length (cues_of ex_sched 900 5000 6144) = 2%nat
+  /\ desig_final false 8 ex_mux = 6144.
+Proof. split; [exact ex_mux_ok|]. split; [exact (proj1 ex_pes_ok)|]. split; [exact (proj2 ex_pes_ok) | split; [exact (proj1 ex_cues_nonempty) | exact ex_desig]]. Qed.
 
 (* what a standard-conforming multiplexer emits belongs to the classes of the stream theorems *)
 Theorem C06_header_unit : forall fl mag0 h, 1 <= mag0 <= 8 -> hdr_ok h = true ->
@@ -181,6 +187,12 @@ Theorem C06_default_designation_packets : forall fl mag0 pkt dc rest, 1 <= mag0 
   neutral_unit mag0 (3, enc_packet fl mag0 pkt (ham84_enc dc :: 0 :: 0 :: 0 :: rest)) = true.
 Proof. exact default_designation_neutral. Qed.
 Print Assumptions C06_default_designation_packets.
+Theorem C06_designation_packets : forall fl mag0 pkt dc t0 t1 t2 rest, 1 <= mag0 <= 8 -> dc = 0 \/ dc = 4 ->
+  pkt = 29 \/ (pkt = 28 /\ N.land (triplet_of [t0; t1; t2]) 15 = 0) ->
+  desig_ok mag0 (3, enc_packet fl mag0 pkt (ham84_enc dc :: t0 :: t1 :: t2 :: rest)) = true
+  /\ desig_of (3, enc_packet fl mag0 pkt (ham84_enc dc :: t0 :: t1 :: t2 :: rest)) = (pkt, triplet_of [t0; t1; t2]).
+Proof. exact designation_unit. Qed.
+Print Assumptions C06_designation_packets.
 Theorem C06_parallel_mode_pages : forall fl mag0 pn0 mag h, 1 <= mag <= 8 -> mag <> mag0 -> hdr_ok h = true ->
   negb ((h_tens h =? 15) && (h_units h =? 15)) = true -> h_serial h = false ->
   benign mag0 pn0 (hdr_unit fl mag h) = true.
